@@ -32,6 +32,7 @@ func c05Variants(tier string, reportsBase string) []cfgVariant {
 		// even strconv+unicode alone exhaust 20 GB: the per-function state is instructions x values; a filter that adds a few small std packages to the program's own is the feasible "wider than default" point)
 		{Name: "pf-wide", Set: map[string]any{"pkg-filter": "vprog|^path$|^errors$|^sort$"}},
 		{Name: "pf-lib", Set: map[string]any{"pkg-filter": "vprog/lib"}},
+		{Name: "pf-main-only", Set: map[string]any{"pkg-filter": "^vprog$|^main$|command-line-arguments"}},
 		{Name: "reports-all", Set: map[string]any{"report-paths": true, "report-summaries": true, "report-coverage": true, "report-no-callee-sites": true, "reports-dir": rd("all")}},
 		{Name: "coverage-filter", Set: map[string]any{"report-coverage": true, "coverage-filter": "vprog", "reports-dir": rd("cov")}},
 		{Name: "loglevel-debug", Set: map[string]any{"log-level": 4}},
@@ -157,9 +158,9 @@ func C05(tier string) {
 	var progs []diffProgram
 	links := gen.AllLinks(nil, []string{"conc", "guard"})
 	r := core.NewRNG(run.SeedV, "c05-"+tier)
-	nGen := 4
+	nGen := 3
 	if tier == "thorough" {
-		nGen = 30
+		nGen = 20
 	}
 	for p := 0; p < nGen; p++ {
 		var chains []gen.Chain
@@ -180,13 +181,28 @@ func C05(tier string) {
 		}
 		progs = append(progs, diffProgram{Name: fmt.Sprintf("gen%02d", p), Dir: dir, BaseYAML: ChainCfg{Name: "base", Rewrites: true}.YAML(), OrigDir: dir, Files: files, Batch: b})
 	}
+	// one fixed program: every link that moves the data through a package-level variable or another package, alone
+	{
+		var chains []gen.Chain
+		for i, l := range gen.AllLinks([]string{"globals", "xpkg"}, []string{"conc", "guard"}) {
+			chains = append(chains, gen.Chain{ID: i + 1, Links: []string{l}})
+		}
+		b := &gen.Batch{Chains: chains}
+		dir := filepath.Join(run.Scratch, "genglobals")
+		files := b.Files()
+		if err := gen.WriteProgram(dir, files); err != nil {
+			run.Inconclusive(err.Error())
+		} else {
+			progs = append(progs, diffProgram{Name: "genglobals", Dir: dir, BaseYAML: ChainCfg{Name: "base", Rewrites: true}.YAML(), OrigDir: dir, Files: files, Batch: b})
+		}
+	}
 	reals := realTaintPrograms("taint")
 	if tier != "thorough" {
 		// a fixed, seed-independent subset in the quick tier
 		var sel []string
 		for _, d := range reals {
 			switch filepath.Base(d) {
-			case "basic", "closures", "globals", "interfaces", "parameters", "interface-summaries", "fields", "defers":
+			case "basic", "closures", "globals", "interfaces", "fields":
 				sel = append(sel, d)
 			}
 		}
@@ -201,7 +217,7 @@ func C05(tier string) {
 	}
 	var mu sync.Mutex
 	comparisons, nonEmpty := 0, 0
-	core.Parallel(len(progs), 4, func(pi int) {
+	core.Parallel(len(progs), 7, func(pi int) {
 		p := progs[pi]
 		work := filepath.Join(run.Scratch, "work-"+p.Name)
 		_ = os.MkdirAll(work, 0o755)
